@@ -200,6 +200,13 @@ fn process_swaps_for_single_pool<C: ContentAddrStore>(
             }
         })
         .fold(0u128, |a, b| a.saturating_add(b.0));
+    // a pool with an empty side (e.g. one whose liquidity was withdrawn completely) has no price to swap at:
+    // leave the requests untouched instead of dividing by zero
+    if pool_state.lefts.saturating_add(total_lefts) == 0
+        || pool_state.rights.saturating_add(total_rights) == 0
+    {
+        return;
+    }
     // transmute coins
     let (left_withdrawn, right_withdrawn) = pool_state.swap_many(total_lefts, total_rights);
 
@@ -208,16 +215,18 @@ fn process_swaps_for_single_pool<C: ContentAddrStore>(
 
         if swap.outputs[0].denom == pool.left() {
             swap.outputs[0].denom = pool.right();
-            swap.outputs[0].value = CoinValue(multiply_frac(
+            swap.outputs[0].value = CoinValue(pro_rata(
                 right_withdrawn,
-                Ratio::new(swap.outputs[0].value.0, total_lefts),
+                swap.outputs[0].value.0,
+                total_lefts,
             ))
             .min(MAX_COINVAL);
         } else {
             swap.outputs[0].denom = pool.left();
-            swap.outputs[0].value = CoinValue(multiply_frac(
+            swap.outputs[0].value = CoinValue(pro_rata(
                 left_withdrawn,
-                Ratio::new(swap.outputs[0].value.0, total_rights),
+                swap.outputs[0].value.0,
+                total_rights,
             ))
             .min(MAX_COINVAL);
         }
@@ -287,6 +296,10 @@ fn process_deposits_for_single_pool<C: ContentAddrStore>(
         .map(|tx| tx.outputs[1].value.0)
         .fold(0u128, |a, b| a.saturating_add(b));
 
+    // nothing can be minted against an empty side, and such a deposit would create a pool without a price
+    if total_lefts == 0 || total_rights == 0 {
+        return;
+    }
     let total_mtsqrt = total_lefts.sqrt().saturating_mul(total_rights.sqrt());
     // main logic here
     let total_liqs = if let Some(mut pool_state) = state.pools.get(pool) {
@@ -309,7 +322,7 @@ fn process_deposits_for_single_pool<C: ContentAddrStore>(
             .saturating_mul(deposit.outputs[1].value.0.sqrt());
         deposit.outputs[0].denom = pool.liq_token_denom();
         deposit.outputs[0].value =
-            multiply_frac(total_liqs, Ratio::new(my_mtsqrt, total_mtsqrt)).into();
+            pro_rata(total_liqs, my_mtsqrt, total_mtsqrt).into();
         log::debug!(
             "added {} total liquidity out of {}!",
             deposit.outputs[0].value,
@@ -381,6 +394,10 @@ fn process_withdrawals_for_single_pool<C: ContentAddrStore>(
         .iter()
         .map(|tx| tx.outputs[0].value.0)
         .fold(0u128, |a, b| a.saturating_add(b));
+    // only zero-valued requests: nothing to redeem
+    if total_liqs == 0 {
+        return;
+    }
     // get the state
     let mut pool_state = state.pools.get(pool).unwrap();
     let (total_left, total_write) = pool_state.withdraw(total_liqs);
@@ -393,10 +410,10 @@ fn process_withdrawals_for_single_pool<C: ContentAddrStore>(
         let my_liqs = deposit.outputs[0].value.0;
         deposit.outputs[0].denom = pool.left();
         deposit.outputs[0].value =
-            multiply_frac(total_left, Ratio::new(my_liqs, total_liqs)).into();
+            pro_rata(total_left, my_liqs, total_liqs).into();
         let synth = CoinData {
             denom: pool.right(),
-            value: multiply_frac(total_write, Ratio::new(my_liqs, total_liqs)).into(),
+            value: pro_rata(total_write, my_liqs, total_liqs).into(),
             covhash: deposit.outputs[0].covhash,
             additional_data: deposit.outputs[0].additional_data.clone(),
         };
@@ -519,6 +536,15 @@ fn process_pegging<C: ContentAddrStore>(mut state: UnsealedState<C>) -> Unsealed
     // return the state now
     assert!(state.pools.val_iter().count() >= 2);
     state
+}
+
+/// The share `mine / total` of `x`, rounded down. A zero `total` (every request of that side is zero-valued) yields zero instead of dividing by zero.
+fn pro_rata(x: u128, mine: u128, total: u128) -> u128 {
+    if total == 0 {
+        0
+    } else {
+        multiply_frac(x, Ratio::new(mine, total))
+    }
 }
 
 fn multiply_frac(x: u128, frac: Ratio<u128>) -> u128 {
